@@ -736,25 +736,41 @@ class Vector():
 
 			# Object dtype accepts any type - skip validation
 			if self._dtype is not None and self._dtype.kind is not object:
-				incompatible = None
+				# Work out the dtype that accommodates EVERY incoming value before
+				# touching the vector, so that a rejected value leaves it unchanged
+				target = self._dtype
 				for val in new_values:
 					try:
-						validate_scalar(val, self._dtype)
+						validate_scalar(val, target)
+						continue
 					except TypeError:
-						incompatible = val
-						break
-
-				if incompatible is not None:
-					required_dtype = infer_dtype([incompatible])
-					try:
-						self._promote(required_dtype.kind)
-						underlying = self._underlying
-					except SerifTypeError:
+						pass
+					if val is None:
+						# None is always accepted: the column becomes nullable
+						target = target.with_nullable(True)
+						continue
+					required_kind = infer_dtype([val]).kind
+					if required_kind is target.kind:
+						# e.g. an int subclass in an int column
+						continue
+					promotable = (
+						(required_kind is float and target.kind is int)
+						or (required_kind is complex and target.kind in (int, float))
+						or (required_kind is datetime and target.kind is date)
+					)
+					if not promotable:
 						raise SerifTypeError(
-							f"Cannot set {required_dtype.kind.__name__} in "
+							f"Cannot set {required_kind.__name__} in "
 							f"{self._dtype.kind.__name__} vector. "
 							f"Promotion not supported."
 						)
+					target = DataType(required_kind, nullable=target.nullable)
+
+				if target.kind is not self._dtype.kind:
+					self._promote(target.kind)
+					underlying = self._underlying
+				if target.nullable and not self._dtype.nullable:
+					self._dtype = self._dtype.with_nullable(True)
 		# =====================================================================
 		# MUTATE — copy-on-write + fingerprint updates
 		# =====================================================================
